@@ -323,9 +323,14 @@ class ExprOps:
             refs = []
             undo = []          # names narrowed only for the evaluation of the later operands: restored before returning
 
+            npush = [0]
+
             def restore():
                 for nm, prev in reversed(undo):
                     st.env[nm] = prev
+                for _ in range(npush[0]):
+                    st.pop_guard()
+                npush[0] = 0
             for i, v in enumerate(node.values):
                 c, rt, rf = self.cond(v)
                 if is_and:
@@ -337,8 +342,8 @@ class ExprOps:
                         # short circuit by forking
                         d = st.decide(2, 'and@%d' % node.lineno)
                         if d == 1:
-                            st.assume(mk_not(mk_and(acc, c)))
                             restore()
+                            st.assume(mk_not(mk_and(acc, c)))
                             return FALSE, [], []
                         st.assume(c)
                         self.apply_refine(rt)
@@ -352,11 +357,13 @@ class ExprOps:
                     acc = mk_and(acc, c)
                 else:
                     if c == TRUE:
+                        restore()
                         return TRUE, [], []
                     rest = node.values[i + 1:]
                     if c != FALSE and rest and not self.spec_mode and not all(simple_expr(x) for x in rest):
                         d = st.decide(2, 'or@%d' % node.lineno)
                         if d == 1:
+                            restore()
                             st.assume(mk_or(acc, c))
                             return TRUE, [], []
                         st.assume(mk_not(c))
@@ -923,7 +930,7 @@ class ExprOps:
             filt = self.filter_comprehension(node, g.target, g, it)
             q = self.seq_of(filt)
             ety = self.elem_ty(filt)
-            it = dict(concrete=None, count="(len %s)" % q, item=lambda j: self.unbox("(at %s %s)" % (q, j), ety), sv=filt, seq=q)
+            it = dict(concrete=None, count="(len %s)" % q, item=lambda j: self.elem_unbox(filt, "(at %s %s)" % (q, j), ety), sv=filt, seq=q)
         return self.map_comprehension(node, elt, g, it)
 
     def map_comprehension(self, node, elt, g, it):
